@@ -167,6 +167,36 @@ func (o *Obligation) SMT() string {
 	for _, n := range fn {
 		b.WriteString(d.funs[n] + "\n")
 	}
+	// heap cells hold machine integers of the element type: a global invariant of the heap model,
+	// needed for quantified cells (ground reads get their range fact when they are read)
+	hasQuant := strings.Contains(o.Goal.Key(), "(forall ")
+	for _, a := range o.Assume {
+		if !hasQuant && strings.Contains(a.Key(), "(forall ") {
+			hasQuant = true
+		}
+	}
+	if hasQuant {
+		for _, n := range names {
+			if d.vars[n] != SArr {
+				continue
+			}
+			hi := ""
+			switch {
+			case strings.HasPrefix(n, "H.uint64"), strings.HasPrefix(n, "H.uint!"), strings.HasPrefix(n, "H.uint"):
+				hi = "18446744073709551615"
+			}
+			if strings.HasPrefix(n, "H.uint32") {
+				hi = "4294967295"
+			} else if strings.HasPrefix(n, "H.uint16") {
+				hi = "65535"
+			} else if strings.HasPrefix(n, "H.uint8") || strings.HasPrefix(n, "H.byte") {
+				hi = "255"
+			}
+			if hi != "" {
+				fmt.Fprintf(&b, "(assert (forall ((p!h Int)) (! (and (<= 0 (select %s p!h)) (<= (select %s p!h) %s)) :pattern ((select %s p!h)))))\n", smtName(n), smtName(n), hi, smtName(n))
+			}
+		}
+	}
 	rn := func(s string) string { return s }
 	if o.Native {
 		rn = renderNative
@@ -174,6 +204,8 @@ func (o *Obligation) SMT() string {
 		b.WriteString("(declare-fun mul (Int Int) Int)\n")
 		if d.boundMul {
 			b.WriteString("(assert (forall ((a!c Int) (b!c Int)) (! (= (mul a!c b!c) (mul b!c a!c)) :pattern ((mul a!c b!c)))))\n")
+			// a true fact of integer multiplication, needed for products of a quantified cell with a bounded factor
+			b.WriteString("(assert (forall ((a!c Int) (b!c Int)) (! (=> (and (<= 0 a!c) (<= a!c 18446744073709551615) (<= 0 b!c)) (and (<= 0 (mul a!c b!c)) (<= (mul a!c b!c) (* 18446744073709551615 b!c)))) :pattern ((mul a!c b!c)))))\n")
 		}
 		pk := make([]string, 0, len(d.prods))
 		for k := range d.prods {
